@@ -20,6 +20,9 @@ _TOK = re.compile(r"\$?[A-Za-z_][A-Za-z_0-9]*|\d+\.?\d*(?:[eE][+-]?\d+)?|\S")
 def norm(e) -> str:
     """source text without insignificant whitespace; one space is kept between two adjacent word tokens
     (so `1 if a else b` does not collapse into `1ifaelseb`)"""
+    if isinstance(e, ast.AST) and any(isinstance(x, ast.Call) and isinstance(x.func, ast.Name) and x.func.id == "slice" for x in ast.walk(e)):
+        import copy
+        e = _SliceCalls().visit(copy.deepcopy(e))
     txt = unparse(e) if not isinstance(e, str) else e
     out, prev_word = [], False
     for t in _TOK.findall(txt):
@@ -29,6 +32,30 @@ def norm(e) -> str:
         out.append(t)
         prev_word = word
     return "".join(out)
+
+
+class _SliceCalls(ast.NodeTransformer):
+    """x[..., slice(a, b, c)] is x[..., a:b:c] (a slice object in subscript position IS the slice)"""
+
+    @staticmethod
+    def _conv(n):
+        if isinstance(n, ast.Call) and isinstance(n.func, ast.Name) and n.func.id == "slice" and not n.keywords and 1 <= len(n.args) <= 3 \
+                and not any(isinstance(a, ast.Starred) for a in n.args):
+            a = [None if (isinstance(x, ast.Constant) and x.value is None) else x for x in n.args]
+            if len(a) == 1:
+                return ast.Slice(lower=None, upper=a[0], step=None)
+            if len(a) == 2:
+                return ast.Slice(lower=a[0], upper=a[1], step=None)
+            return ast.Slice(lower=a[0], upper=a[1], step=a[2])
+        return n
+
+    def visit_Subscript(self, n):
+        self.generic_visit(n)
+        if isinstance(n.slice, ast.Tuple):
+            n.slice.elts = [self._conv(x) for x in n.slice.elts]
+        else:
+            n.slice = self._conv(n.slice)
+        return n
 
 
 def statements(fn, nested=False) -> List[Tuple[str, ast.AST]]:
